@@ -24,6 +24,11 @@ RUNS = {"quick": 450, "thorough": 24000}
 HASHSEED_SLOTS = {"quick": 3, "thorough": 12}
 FRESH = {"quick": 8, "thorough": 32}
 JOB_TIMEOUT = 600.0
+
+
+def minimise_budget(spec):
+    return 24 if "fresh" in spec else 160
+
 COMPONENTS = {
     "real": ["MazeDataset.generate (serial)", "MazeDataset.from_config(load_local=False, save_local=False)", "_apply_filters_from_config + filters", "MazeDatasetConfig construction/load (set_reproducibility)", "all generators", "python random / numpy global RNG / torch RNG / generators.numpy_rng (drawn from and re-seeded as noise)", "tokenizers as RNG users"],
     "stub": ["multiprocessing.Pool for *noise* generate calls (SimPool)"],
@@ -275,21 +280,21 @@ def post(pool, pairs, tier, rng):
             by_cfg.setdefault(r["cfg_digest"], {}).setdefault(r["golden_digest"], []).append(s)
     more = []
     n_multi = 0
+    rerun = []
     for cd, gd in by_cfg.items():
         slots = {s.get("slot") for v in gd.values() for s in v}
         if len(slots) > 1:
             n_multi += 1
         if len(gd) > 1:
             specs = [v[0] for v in gd.values()]
-            s0 = dict(specs[0], fresh={"hashseed": pool.hashseeds[(specs[1].get("slot") or 0) % len(pool.hashseeds)]})
-            # re-run as a self-contained cross-process scenario (fresh interpreter with the other server's hash seed)
-            r = pool.run([{"prop": PROP, "tier": tier, "timeout": JOB_TIMEOUT, "spec": s0, "slot": s0.get("slot")}])[0]
-            if isinstance(r, dict) and r.get("status") == "violation":
-                more.append((s0, r))
-            else:
-                log = core.EventLog()
-                log.add("cross", cd, sorted(gd))
-                more.append((s0, {"__harness__": "cross-process golden mismatch did not reproduce in a fresh interpreter", "goldens": sorted(gd)}))
+            rerun.append((cd, sorted(gd), dict(specs[0], fresh={"hashseed": pool.hashseeds[(specs[1].get("slot") or 0) % len(pool.hashseeds)]})))
+    rerun = rerun[:4]  # self-contained cross-process scenarios (fresh interpreter with the other server's hash seed)
+    rs = pool.run([{"prop": PROP, "tier": tier, "timeout": JOB_TIMEOUT, "spec": s0, "slot": s0.get("slot")} for _, _, s0 in rerun])
+    for (cd, gds, s0), r in zip(rerun, rs):
+        if isinstance(r, dict) and r.get("status") == "violation":
+            more.append((s0, r))
+        else:
+            more.append((s0, {"__harness__": "cross-process golden mismatch did not reproduce in a fresh interpreter", "goldens": gds}))
     return more, {"configurations_with_goldens_from_several_hashseeds": n_multi, "distinct_target_configurations": len(by_cfg)}
 
 
